@@ -9,6 +9,7 @@ import (
 
 	"github.com/avos-io/goat/gen/testproto"
 	"google.golang.org/grpc"
+	"google.golang.org/grpc/metadata"
 )
 
 // zzFlaky wraps a transport end; when armed, writes fail.
@@ -35,7 +36,8 @@ func (f *zzFlaky) Write(ctx context.Context, r *Rpc) error {
 // so the post-state is again an idle-compatible state and histories of any length follow
 // by induction. outcome: 0 unary ok, 1 unary handler error, 2 stream ok, 3 stream handler
 // error, 4 stream caller cancel (at any point), 5 stream open whose transport write fails,
-// 6 unary whose transport write fails.
+// 6 unary whose transport write fails, 7 cancel of an idle stream while the reset cannot be
+// written, 8 unary call that ends by its deadline (handler waits for its context).
 func H_C14_release() {
 	outcome := vfParam("outcome", 0)
 	pre := vfParam("pre", 0)
@@ -44,7 +46,21 @@ func H_C14_release() {
 	if outcome == 1 || outcome == 3 {
 		herr = errors.New("handler failed")
 	}
+	waitForDeadline := false
+	unaryRunning := 0
 	impl.unary = func(ctx context.Context, in *testproto.Msg) (*testproto.Msg, error) {
+		impl.mu.vfLock()
+		unaryRunning++
+		impl.mu.vfUnlock()
+		defer func() {
+			impl.mu.vfLock()
+			unaryRunning--
+			impl.mu.vfUnlock()
+		}()
+		if waitForDeadline {
+			<-ctx.Done() // a handler that ends only through its context
+			return nil, ctx.Err()
+		}
 		if herr != nil {
 			return nil, herr
 		}
@@ -113,6 +129,17 @@ func H_C14_release() {
 			out := new(testproto.Msg)
 			err := cc.Invoke(context.Background(), "/"+zzSvcName+"/Unary", &testproto.Msg{Value: 1}, out)
 			vfAssert((err != nil) == (outcome != 0), "unary-outcome")
+		case 8:
+			// deadline: a unary call with a deadline and outgoing metadata whose handler waits for its
+			// context. Timers are armed from here on: the caller's deadline and the one the server derives
+			// from the timeout header may each expire at any point.
+			waitForDeadline = true
+			vfArmTimers(true)
+			ctx, cancel := context.WithTimeout(metadata.AppendToOutgoingContext(context.Background(), "k", "v"), 3600000000000)
+			out := new(testproto.Msg)
+			err := cc.Invoke(ctx, "/"+zzSvcName+"/Unary", &testproto.Msg{Value: 1}, out)
+			vfAssert(err != nil, "deadline-outcome")
+			cancel()
 		case 7:
 			// the caller cancels an idle stream while the transport (transiently) refuses writes:
 			// the reset cannot be written, the registration must go all the same
@@ -178,6 +205,9 @@ func H_C14_release() {
 		// goroutines: the idle level measured after the warm-up call plus, with a pre-existing
 		// stream, its client read loop and its server handler
 		vfAssert(vfCensus() == idleLevel+2*base, "goroutines-back-to-the-idle-level")
+		// pooled workers do not show in the census: a handler still running for an RPC that has ended
+		// is a held worker
+		vfAssert(unaryRunning == 0, "no-unary-handler-still-running")
 		vfReach("checked")
 	})
 	_ = ready
